@@ -27,7 +27,13 @@ TRUSTED_BASE = [
     "tools/extract_tables.py (tie A: tables regenerated from /repo/src with Python's ast module)",
     "extraction: ExtrOcamlBasic + ExtrOcamlString (bool/option/unit/list/prod/sumbool/sumor to OCaml natives, andb/orb inlined, "
     "ascii -> char, string -> char list; nat/Z/positive stay extracted datatypes); OCaml 4.13.1",
-    "correspondence harness (tools/vlib.py, tools/props/*.py): generators, S-expression codec, comparers",
+    "correspondence harness (tools/vlib.py, tools/props/*.py, tools/frontcmp.py, tools/doctypes.py): generators, S-expression codec, comparers",
+    "tools/viewdump.py: which attribute of which mypy object lands in which field of the view (dumped inside the mypy.build.build wrapper, "
+    "before the analyzer runs); it precomputes 'this base class derives from Exception' and the type_of_any name, drops repeated entries of "
+    "build_result.types (justified by the theorem alias_later_duplicate_irrelevant) and replicates _get_nearest_init_dirs to build a second "
+    "docstring parser whose answers are the oracle table of the view",
+    "modelled, not verified: mypy, griffe (parsers, parse_annotation, expression trees), pathlib, json, logging, CPython str/dict/set/sorted/"
+    "Counter, float repr; Python sets are lists in the model (use sites are order-insensitive or flagged: o_amb, g_tie)",
     "hand-written specifications in coq/Spec (keywords, Safe-DS scanner, reference readings of the property text)",
 ]
 
